@@ -4,14 +4,20 @@ package main
 // the RateLimitWait call dominates handleRunHook in ShellOperator.taskHandleHookRun.
 
 import (
+	"bytes"
 	"fmt"
 	"go/ast"
+	"go/printer"
 	"go/token"
+	"os"
+	"path/filepath"
+	"sort"
 	"strconv"
+	"strings"
 )
 
 func init() {
-	factFns = append(factFns, c18Facts)
+	factFns = append(factFns, c18Facts, c18LimiterFacts)
 	skeletonTargets = append(skeletonTargets,
 		skelTarget{Name: "C18.taskHandleHookRun", File: "pkg/shell-operator/operator.go", Recv: "ShellOperator", Func: "taskHandleHookRun",
 			Calls: []string{"RateLimitWait", "handleRunHook", "combineBindingContextForHook"}},
@@ -90,4 +96,89 @@ func c18Facts(l *leanDefs) {
 	l.def("c18BurstSet", "String", fmt.Sprintf("%q", setB), src)
 	l.def("c18Return", "String", fmt.Sprintf("%q", ret), src)
 	l.def("c18Stale", "Bool", map[bool]string{true: "true", false: "false"}[stale], src)
+}
+
+// c18LimiterFacts (tie T1, closed world): every statement of the repository (pkg/, cmd/; tests and
+// `//go:build verif` files left out) that mentions the field `RateLimiter`, as "file:func: statement",
+// and every call of one of rate.Limiter's re-tuning methods. The model of Hook.LoadConfig
+// (`hookLimiter` = CreateRateLimiter of the settings, whatever the bindings) was written against
+// exactly two uses: the assignment in LoadConfig and the Wait in RateLimitWait.
+func c18LimiterFacts(l *leanDefs) {
+	src := "pkg/**, cmd/** (uses of Hook.RateLimiter)"
+	tuners := map[string]bool{"SetLimit": true, "SetBurst": true, "SetLimitAt": true, "SetBurstAt": true}
+	var uses, tunes []string
+	render := func(n ast.Node) string {
+		var b bytes.Buffer
+		_ = printer.Fprint(&b, fset, n)
+		return strings.Join(strings.Fields(b.String()), " ")
+	}
+	mentions := func(n ast.Node) bool {
+		found := false
+		ast.Inspect(n, func(x ast.Node) bool {
+			switch y := x.(type) {
+			case *ast.SelectorExpr:
+				if y.Sel.Name == "RateLimiter" {
+					found = true
+				}
+			case *ast.KeyValueExpr:
+				if id, ok := y.Key.(*ast.Ident); ok && id.Name == "RateLimiter" {
+					found = true
+				}
+			}
+			return !found
+		})
+		return found
+	}
+	for _, top := range []string{"pkg", "cmd"} {
+		_ = filepath.Walk(filepath.Join(repo, top), func(p string, info os.FileInfo, err error) error {
+			if err != nil || info.IsDir() || !strings.HasSuffix(p, ".go") || strings.HasSuffix(p, "_test.go") {
+				return nil
+			}
+			if raw, err := os.ReadFile(p); err != nil || bytes.Contains(raw, []byte("//go:build verif")) ||
+				!(bytes.Contains(raw, []byte("RateLimiter")) || bytes.Contains(raw, []byte("SetLimit")) || bytes.Contains(raw, []byte("SetBurst"))) {
+				return nil
+			}
+			rel, _ := filepath.Rel(repo, p)
+			f := parse(rel)
+			if f == nil {
+				return nil
+			}
+			for _, d := range f.Decls {
+				fd, ok := d.(*ast.FuncDecl)
+				if !ok || fd.Body == nil {
+					continue
+				}
+				ast.Inspect(fd.Body, func(n ast.Node) bool {
+					switch x := n.(type) {
+					case *ast.AssignStmt, *ast.ExprStmt, *ast.ReturnStmt, *ast.DeclStmt, *ast.GoStmt, *ast.DeferStmt, *ast.SendStmt, *ast.IncDecStmt:
+						if mentions(x) {
+							uses = append(uses, fmt.Sprintf("%s:%s: %s", rel, fd.Name.Name, render(x)))
+						}
+					case *ast.IfStmt:
+						if x.Cond != nil && mentions(x.Cond) {
+							uses = append(uses, fmt.Sprintf("%s:%s: if %s", rel, fd.Name.Name, render(x.Cond)))
+						}
+					case *ast.SwitchStmt:
+						if x.Tag != nil && mentions(x.Tag) {
+							uses = append(uses, fmt.Sprintf("%s:%s: switch %s", rel, fd.Name.Name, render(x.Tag)))
+						}
+					case *ast.RangeStmt:
+						if mentions(x.X) {
+							uses = append(uses, fmt.Sprintf("%s:%s: range %s", rel, fd.Name.Name, render(x.X)))
+						}
+					case *ast.CallExpr:
+						if se, ok := x.Fun.(*ast.SelectorExpr); ok && tuners[se.Sel.Name] {
+							tunes = append(tunes, fmt.Sprintf("%s:%s: %s", rel, fd.Name.Name, render(x)))
+						}
+					}
+					return true
+				})
+			}
+			return nil
+		})
+	}
+	sort.Strings(uses)
+	sort.Strings(tunes)
+	l.def("c18LimiterUses", "List String", leanStrList(uses), src)
+	l.def("c18LimiterTuners", "List String", leanStrList(tunes), src)
 }
